@@ -128,15 +128,9 @@ func nnp(c *Case) {
 		if judgedInstalls < 2 {
 			return
 		}
-		switch nc.Mode {
-		case "migrate":
-			forceMigrate()
-		case "gosched", "busy":
-			for i := 0; i < 200; i++ {
-				runtime.Gosched()
-			}
-			time.Sleep(2 * time.Millisecond)
-		}
+		t0 := syscall.Gettid()
+		mig, att := forceMigrate() // refused if the goroutine is locked to its thread, as it has to be between the steps of a load
+		emit(map[string]any{"ev": "second_install", "tid_in": t0, "tid_out": syscall.Gettid(), "migrated": mig, "attempts": att})
 	}
 	outerErr := ""
 	if nc.Prior == "outer-einval-on-log-flag" {
